@@ -351,9 +351,14 @@ func (c *Conn) Close() error {
 		c.listener.connLock.Lock()
 		delete(c.listener.conns, c.rAddr.String())
 		nConns := len(c.listener.conns)
+		// Whether this is the final connection has to be decided in one look:
+		// connections are created under this lock and only while accepting.
+		// Reading the flag after unlocking would let a connection created in
+		// between go unnoticed, and Close would wait for it to be closed too.
+		isAccepting, ok := c.listener.accepting.Load().(bool)
 		c.listener.connLock.Unlock()
 
-		if isAccepting, ok := c.listener.accepting.Load().(bool); nConns == 0 && !isAccepting && ok {
+		if nConns == 0 && !isAccepting && ok {
 			// Wait if this is the final connection
 			c.listener.readWG.Wait()
 			if errClose, ok := c.listener.errClose.Load().(error); ok {
